@@ -84,6 +84,9 @@ def gen_group(rng, et, size=None, allow_conflict=True):
         if events and rng.random() < 0.2:
             e = dict(rng.choice(events))
             e = {'props': {k: list(v) for k, v in e['props'].items()}, 'parents': list(e['parents']), 'tag': i + 1}
+            if rng.random() < 0.5:
+                # the same objects (and version), other explicit parents: no conflict, the parents are united
+                e['parents'] = rng.sample([hashlib.sha1(b'parent%d' % j).hexdigest() for j in range(3)], rng.choice([0, 1, 2]))
             events.append(e)
             continue
         pr = {}
